@@ -1,7 +1,9 @@
--- root of the library: every module that must build for `lake build FileD`
+-- root of the library: `lake build` builds every module reachable from here.
+-- Props modules are listed in FileD/Props/All.lean.
 import FileD.Prelude.Bytes
 import FileD.Prelude.Tok
-import FileD.Model.Worker
-import FileD.Spec.C06
+import FileD.Prelude.GoSlice
+import FileD.Prelude.JTree
+import FileD.Prelude.TS
 import FileD.Drv.All
-import FileD.Props.C06
+import FileD.Props.All
